@@ -16,6 +16,18 @@ def symbols(prefix, n):
     return [sp.Symbol("%s%d" % (prefix, i), real=True) for i in range(n)]
 
 
+def csymbols(prefix, n):
+    """Generic complex coefficients re + i·im with real symbolic parts."""
+    return [sp.Symbol("%sr%d" % (prefix, i), real=True) + sp.I * sp.Symbol("%si%d" % (prefix, i), real=True) for i in range(n)]
+
+
+def with_imaginary_lead(prefix, n):
+    """Coefficients whose leading one is purely imaginary (real part exactly 0): a tolerance test that forgets the imaginary part trims it."""
+    cs = symbols(prefix, n)
+    cs[-1] = sp.I * sp.Symbol("%si%d" % (prefix, n - 1), real=True, nonzero=True)
+    return cs
+
+
 def _small(e):
     if e.is_number:
         return bool(e > 0 and e <= sp.Rational(1, 1000))     # a literal zero tolerance such as the default 1e-10
@@ -75,6 +87,9 @@ class _Timeout(Exception):
     pass
 
 
+TRACE = set()      # def-paths of crate functions inlined by abstract calls (reported as functions analysed)
+
+
 def call(F, body, args, consts=None, hook=None, seconds=25, cls=None):
     """Abstract call with a wall-clock budget (a diverging abstract execution fails closed instead of hanging)."""
     import signal
@@ -97,6 +112,8 @@ def call(F, body, args, consts=None, hook=None, seconds=25, cls=None):
     finally:
         signal.setitimer(signal.ITIMER_REAL, 0)
         signal.signal(signal.SIGALRM, old)
+        TRACE.add(body["path"])
+        TRACE.update(it.shared.get("trace_fns", []))
     return v, it
 
 
